@@ -84,7 +84,7 @@ def prepare():
     lock = open(os.path.join(SCRATCH, '.lock'), 'w')
     fcntl.flock(lock, fcntl.LOCK_EX)
     try:
-        stamp = os.path.join(w, 'ok')
+        stamp = os.path.join(w, 'ok-v3')
         if not os.path.exists(stamp):
             for old in glob.glob(os.path.join(SCRATCH, '*')):
                 if os.path.isdir(old) and old != w:
@@ -99,13 +99,28 @@ def prepare():
             rc, o, e, _ = sh(['ninja', '-C', os.path.join(w, 'build'), 'uncrustify'], timeout=1800)
             if rc != 0:
                 raise RuntimeError('build of /repo failed:\n' + o[-3000:] + e[-2000:])
+            objs = []
+            for d, dn, fn in os.walk(os.path.join(w, 'build', 'CMakeFiles', 'uncrustify.dir')):
+                for f in sorted(fn):
+                    if f.endswith('.o') and f != 'uncrustify.cpp.o':
+                        objs.append(os.path.join(d, f))
+                    elif f == 'uncrustify.cpp.o':
+                        # main() renamed: the drivers have their own; cpd and the helper functions stay available
+                        ren = os.path.join(w, 'uncrustify_nomain.o')
+                        rc, o, e, _ = sh(['objcopy', '--redefine-sym', 'main=unc_real_main', os.path.join(d, f), ren], timeout=60)
+                        if rc != 0:
+                            raise RuntimeError('objcopy failed: ' + e[-500:])
+                        objs.append(ren)
+            rc, o, e, _ = sh(['ar', 'rcs', os.path.join(w, 'libunc.a')] + sorted(objs), timeout=300)
+            if rc != 0:
+                raise RuntimeError('ar failed: ' + e[-1000:])
             open(stamp, 'w').write('%.1f' % (time.time() - t0))
             log('stage P: built /repo tree %s in %.1fs' % (th, time.time() - t0))
     finally:
         fcntl.flock(lock, fcntl.LOCK_UN)
         lock.close()
     b = os.path.join(w, 'build')
-    return dict(treehash=th, w=w, build=b, binary=os.path.join(b, 'uncrustify'),
+    return dict(treehash=th, w=w, build=b, binary=os.path.join(b, 'uncrustify'), libunc=os.path.join(w, 'libunc.a'),
                 inc=['-I' + MODELS, '-I' + HARNESS, '-I' + os.path.join(b, 'src'), '-I' + os.path.join(REPO, 'src'), '-I' + b])
 
 
@@ -133,51 +148,122 @@ class Inconclusive(Exception):
     pass
 
 
+# logging / diagnostics helpers: empty bodies (DESIGN.md section 2). Matched on the mangled name.
+NOOP_RE = re.compile(r'(log_fmt|log_flush|log_rule|log_func|log_sev_on|log_pcf_flags|log_str|log_hex|log_init|'
+                     r'get_unqualified_func_name|log_ruleNL|log_ruleStart|prot_the_line|prot_all_lines|prot_some_lines|'
+                     r'dump_step|dump_keyword_for_lang|log_get_mask|log_set_mask|'
+                     r'6OptionINSt7__cxx1112basic_stringIcSt11char_traitsIcESaIcEEEEC[12]E)')
+_havoc_cache = {}
+_havoc_lock = __import__('threading').Lock()
+OPT_RE = re.compile(r'@_ZN10uncrustify7options(\d+)(\w+)')
+
+
+def closure_options(ll_path):
+    """option objects referenced by function bodies of the closure (not by static constructors)"""
+    out = set()
+    cur = None
+    for line in open(ll_path, errors='replace'):
+        if line.startswith('define '):
+            m = re.search(r'@([\w.$]+|"[^"]+")\(', line)
+            cur = m.group(1) if m else '?'
+            continue
+        if line.startswith('}'):
+            cur = None
+            continue
+        if cur is None or cur.startswith(('_GLOBAL__sub_I', '__cxx_global_var_init')):
+            continue
+        for m in OPT_RE.finditer(line):
+            n = int(m.group(1))
+            rest = m.group(2)
+            if len(rest) >= n + 1 and rest[n] == 'E':
+                out.add(rest[:n])
+    return sorted(out)
+
+
 def defs_flags(defs):
     return ['-D%s=%s' % (k, v) if v is not None else '-D%s' % k for k, v in sorted(defs.items())]
+
+
+def compile_closure(prep, ob, dflags, wd, tag, extra_inc):
+    harness = os.path.join(HARNESS, ob['harness'])
+    entry = ob['entry']
+    inc = extra_inc + prep['inc']
+    lls = []
+    srcs = [harness] + [os.path.join(REPO, 'src', x) if not (os.path.isabs(x) or x.startswith('$')) else x for x in ob.get('extra_tus', [])]
+    srcs = [s.replace('$BUILD', prep['build']).replace('$HARNESS', HARNESS) for s in srcs]
+    for i, src in enumerate(srcs):
+        ll = os.path.join(wd, '%stu%d.ll' % (tag, i))
+        flags = list(CLANG_FLAGS)
+        cmd = ['clang++-14'] + flags + inc + dflags + ['-include', 'vp_prelude.h', '-S', '-emit-llvm', src, '-o', ll]
+        rc, o, e, _ = sh(cmd, timeout=600)
+        if rc != 0:
+            raise Inconclusive('clang failed on %s:\n%s' % (src, e[-3000:]))
+        lls.append(ll)
+    linked = os.path.join(wd, tag + 'linked.ll')
+    if len(lls) > 1:
+        rc, o, e, _ = sh(['llvm-link-14', '-S'] + lls + ['-o', linked], timeout=300)
+        if rc != 0:
+            raise Inconclusive('llvm-link failed:\n' + e[-2000:])
+    else:
+        shutil.copy(lls[0], linked)
+    opt = os.path.join(wd, tag + 'closure.ll')
+    rc, o, e, _ = sh(['opt-14', '-S', '-enable-new-pm=0', '-internalize', '-internalize-public-api-list=' + ','.join([entry] + sorted(set(ob.get('redirect', {}).values()))),
+                      '-globaldce', linked, '-o', opt], timeout=300)
+    if rc != 0:
+        raise Inconclusive('opt failed:\n' + e[-2000:])
+    for f in lls + [linked]:
+        try:
+            os.unlink(f)
+        except OSError:
+            pass
+    return opt
+
+
+def havoc_header(prep, ob, dflags, wd):
+    """phase 1 of harnesses with symbolic options: which option objects does the closure read?"""
+    key = (ob['harness'], ob['entry'], prep['treehash'])
+    with _havoc_lock:
+        if key in _havoc_cache:
+            return _havoc_cache[key]
+        d1 = os.path.join(wd, 'phase1')
+        os.makedirs(d1, exist_ok=True)
+        open(os.path.join(d1, 'vp_havoc_gen.h'), 'w').write('/* phase 1: empty */\n')
+        opt = compile_closure(prep, ob, dflags, d1, 'p1', ['-I' + d1])
+        names = closure_options(opt)
+        pinned = set(ob.get('pinned_options', []))
+        txt = '/* generated: option objects read by the closure of %s (regenerated every run) */\n' % ob['entry']
+        for n in names:
+            txt += ('VP_PIN_OPT(%s)\n' if n in pinned else 'VP_HAVOC_OPT(%s)\n') % n
+        shutil.rmtree(d1, ignore_errors=True)
+        _havoc_cache[key] = (txt, names)
+        return _havoc_cache[key]
 
 
 def build_instance(prep, ob, inst, wd):
     """clang -> IR -> C (+ native drivers). Returns dict of artefacts."""
     os.makedirs(wd, exist_ok=True)
-    harness = os.path.join(HARNESS, ob['harness'])
     entry = ob['entry']
     defs = dict(ob.get('defs', {}))
     defs.update(inst.get('defs', {}))
     dflags = defs_flags(defs)
-    inc = prep['inc']
     art = dict(wd=wd, entry=entry)
     t0 = time.time()
-    lls = []
-    srcs = [harness] + [os.path.join(REPO, 'src', x) if not os.path.isabs(x) else x for x in ob.get('extra_tus', [])]
-    srcs = [s.replace('$BUILD', prep['build']) for s in srcs]
-    for i, src in enumerate(srcs):
-        ll = os.path.join(wd, 'tu%d.ll' % i)
-        cmd = ['clang++-14'] + CLANG_FLAGS + inc + dflags + ['-include', 'vp_prelude.h', '-S', '-emit-llvm', src, '-o', ll]
-        rc, o, e, _ = sh(cmd, timeout=300)
-        if rc != 0:
-            raise Inconclusive('clang failed on %s:\n%s' % (src, e[-3000:]))
-        lls.append(ll)
-    linked = os.path.join(wd, 'linked.ll')
-    if len(lls) > 1:
-        rc, o, e, _ = sh(['llvm-link-14', '-S'] + lls + ['-o', linked], timeout=120)
-        if rc != 0:
-            raise Inconclusive('llvm-link failed:\n' + e[-2000:])
-    else:
-        shutil.copy(lls[0], linked)
-    opt = os.path.join(wd, 'closure.ll')
-    rc, o, e, _ = sh(['opt-14', '-S', '-enable-new-pm=0', '-internalize', '-internalize-public-api-list=' + entry,
-                      '-globaldce', linked, '-o', opt], timeout=120)
-    if rc != 0:
-        raise Inconclusive('opt failed:\n' + e[-2000:])
+    txt, names = ('/* no symbolic options */\n', [])
+    if ob.get('havoc_options'):
+        txt, names = havoc_header(prep, ob, dflags, wd)
+    open(os.path.join(wd, 'vp_havoc_gen.h'), 'w').write(txt)
+    art['closure_options'] = names
+    opt = compile_closure(prep, ob, dflags, wd, '', ['-I' + wd])
     gen = os.path.join(wd, 'gen.c')
     stats = os.path.join(wd, 'stats.json')
-    cmd = [sys.executable, os.path.join(ENGINE, 'ir2c.py'), opt, gen, '--entry', entry, '--stats', stats]
+    cmd = [sys.executable, os.path.join(ENGINE, 'ir2c.py'), opt, gen, '--entry', entry, '--stats', stats, '--noop-re', NOOP_RE.pattern]
     for a, b in ob.get('redirect', {}).items():
         cmd += ['--redirect', '%s=%s' % (a, b)]
     for n in ob.get('noop', []):
         cmd += ['--noop', n]
-    rc, o, e, _ = sh(cmd, timeout=300)
+    for g in ob.get('split_globals', ['cpd']):
+        cmd += ['--split-global', g]
+    rc, o, e, _ = sh(cmd, timeout=600)
     if rc != 0:
         raise Inconclusive('ir2c: ' + e[-2000:])
     art['gen'] = gen
@@ -202,12 +288,11 @@ def build_native(prep, ob, inst, art):
         raise Inconclusive('gcc failed on generated C:\n' + e[-3000:])
     real_bin = os.path.join(wd, 'real_native')
     harness = os.path.join(HARNESS, ob['harness'])
-    srcs = [harness] + [os.path.join(REPO, 'src', x) if not os.path.isabs(x) else x for x in ob.get('extra_tus', [])]
-    srcs = [s.replace('$BUILD', prep['build']) for s in srcs]
+    srcs = [harness] + [x.replace('$HARNESS', HARNESS) for x in ob.get('real_extra_tus', [])]
     objs = []
     for i, src in enumerate(srcs):
         obj = os.path.join(wd, 'real%d.o' % i)
-        cmd = ['g++', '-O1', '-w', '-ffunction-sections', '-fdata-sections', '-DVP_REAL_STL', '-DNDEBUG', '-std=gnu++11'] + prep['inc'] + dflags + \
+        cmd = ['g++', '-O1', '-w', '-ffunction-sections', '-fdata-sections', '-DVP_REAL_STL', '-DNDEBUG', '-std=gnu++11', '-I' + wd] + prep['inc'] + dflags + \
               ['-include', 'vp_prelude.h', '-c', src, '-o', obj]
         rc, o, e, _ = sh(cmd, timeout=600)
         if rc != 0:
@@ -218,7 +303,7 @@ def build_native(prep, ob, inst, art):
                               'int main() { vp_rt_init(); %s(); vp_rt_fini(); return 0; }\n' % (art['entry'], art['entry']))
     nat = os.path.join(wd, 'vp_native.o')
     rc, o, e, _ = sh(['gcc', '-O1', '-c', os.path.join(MODELS, 'vp_native.c'), '-o', nat], timeout=120)
-    rc, o, e, _ = sh(['g++', '-O1', '-w', '-Wl,--gc-sections', main_cpp] + objs + [nat, '-o', real_bin], timeout=600)
+    rc, o, e, _ = sh(['g++', '-O1', '-w', '-Wl,--gc-sections', main_cpp] + objs + [nat, prep['libunc'], '-o', real_bin], timeout=600)
     if rc != 0:
         raise Inconclusive('link of real driver failed:\n' + e[-3000:])
     art['gen_bin'] = gen_bin
@@ -293,7 +378,7 @@ RES_RE = re.compile(r'^\[(?P<id>[^\]]+)\] (?:line (?P<line>\d+) )?(?P<desc>.*): 
 def cbmc_cmd(ob, inst, art, extra=()):
     unwind = inst.get('unwind', ob.get('unwind', 4))
     cmd = ['cbmc', art['gen'], '-I', MODELS, '--unwind', str(unwind)] + CBMC_CHECKS + \
-          ['--object-bits', str(ob.get('object_bits', 10)), '--drop-unused-functions', '--verbosity', '8']
+          ['--object-bits', str(ob.get('object_bits', 16)), '--drop-unused-functions', '--verbosity', '8']
     us = dict(ob.get('unwindset', {}))
     us.update(inst.get('unwindset', {}))
     if us:
